@@ -400,7 +400,7 @@ func misreadTag(op *Op, m FeatureMisread) string {
 
 // featureReads: reads that may need a feature, for one ledger (appended to a client of the C35 profile).
 func featureReads(r *RNG, l string, prefix string, txN uint64) []Op {
-	pits := []string{"2000-01-01T00:00:00Z", "1999-07-01T00:00:00Z", "2031-01-01T00:00:00Z"}
+	pits := []string{"2000-01-01T00:00:00Z", "1999-07-01T00:00:00Z", "2031-01-01T00:00:00Z", "2000-01-01T00:00:00.012Z", "2000-01-01T00:00:00.030Z", "2000-01-01T00:00:00.055Z", "2000-01-01T00:00:00.090Z", "2000-01-01T00:00:00.160Z"}
 	var out []Op
 	get := func(path, body string) {
 		req := &Request{Method: "GET", Path: path}
@@ -665,7 +665,7 @@ func init() {
 	// point-in-time reads take their metadata from.
 	register(Profile{Property: "C17", Name: "history-reads", Gen: func(r *RNG, seed uint64, tier string) (*Scenario, *ExploreCfg) {
 		sc, ex := profiles["C35"][0].Gen(r, seed, tier)
-		sc.Property, sc.Profile, sc.Checks = "C17", "history-reads", []string{"metadata-history-reads", "current-metadata", "metadata-history-rows"}
+		sc.Property, sc.Profile, sc.Checks = "C17", "history-reads", []string{"metadata-history-reads", "current-metadata", "metadata-history-rows", "metadata-at-pit"}
 		return sc, ex
 	}})
 }
